@@ -24,7 +24,7 @@ const opFreeze = "freeze" // clone Slot and keep the clone untouched as a captur
 func genC02(t *rapid.T, tier string) C02Case {
 	c := C02Case{Cfg: core.GenConfig(t, tier, core.GenOpts{
 		Caches:   []string{"none", "big", "big", "tiny1", "tiny2", "tiny3", "arc", "arc4"},
-		Vals:     []string{core.VInt, core.VInt, core.VBytes, core.VStruct, core.VString, core.VLong},
+		Vals:     []string{core.VInt, core.VInt, core.VBytes, core.VStruct, core.VString, core.VLong, core.VTags, core.VPtr},
 		BigOneIn: 20,
 	})}
 	c.Fill = core.GenFillCfg(t, c.Cfg, 30)
